@@ -10,9 +10,13 @@ import (
 
 func c10cfg(tr Traits) CrashCfg {
 	cfg := CrashCfg{
-		Gen:        GenCfg{MaxEntries: 120, MinOps: 5, MaxOps: 25},
+		Gen: GenCfg{MaxEntries: 120, MinOps: 5, MaxOps: 25,
+			Weights: map[OpKind]int{OpImport: 6, OpRemoveNode: 5, OpRemoveEntries: 10, OpSaveSnapshots: 12}},
 		Exhaustive: vfhelp.Thorough(),
 		MaxPoints:  64,
+	}
+	if tr.Tan {
+		cfg.Gen.BigCmd = true
 	}
 	if !tr.Tan {
 		// Pebble's manual compaction flushes and compacts on background
@@ -29,7 +33,13 @@ func runC10CrashUnit(t *testing.T, unit string, tr Traits, open Opener) {
 	st.Set("store", tr.Name)
 	st.Set("exhaustive", cfg.Exhaustive)
 	rapid.Check(t, func(t *rapid.T) {
-		RunC10Crash(t, st, tr, open, cfg)
+		c := cfg
+		if tr.Tan {
+			// half of the tan workloads avoid the trigger of known finding S9 so
+			// that the search continues behind it
+			c.Gen.NoCommitOnly = rapid.Bool().Draw(t, "no-commit-only")
+		}
+		RunC10Crash(t, st, tr, open, c)
 	})
 }
 
